@@ -85,7 +85,7 @@ class WordRec(e7.Recogniser):
             st["epoch"] = st.get("epoch", 0) + 1
             return ("op", ("space",))
         if ck.endswith(("ScanError::new_str", "ScanError::new")):
-            return ("op", ("err",))
+            return "stop"          # an error is being built: the path ends here (what follows is its propagation)
         if ck.startswith(SCANNER + "::skip") or ck.startswith(INPUT + "::skip") or ck.startswith(INPUT + "::raw_read"):
             st["epoch"] = st.get("epoch", 0) + 1
             return ("op", ("consume?", ck))
@@ -134,7 +134,7 @@ def check(rep, F, rule="comment-test-after-blank"):
         for p in ps:
             if p["why"] == "back-edge" and p["end"] is not None and any(o[0] in ("space", "consume?") for o in p["ops"]):
                 work.append(p["end"])      # go on from the loop head with what was learnt about earlier characters forgotten
-            if not any(o == ("err",) for o in p["ops"]):
+            if not (p["why"].startswith("call ") and p["why"].endswith(("ScanError::new_str", "ScanError::new"))):
                 continue
             last = max([k_[1] for k_ in p["guards"] if k_[0] == "cur"], default=None)
             pinned = [c for k_, c in p["guards"].items() if k_[0] == "cur" and k_[1] == last and c.pos is not None and len(c.pos) == 1 and set(c.pos) <= IND]
